@@ -2,6 +2,7 @@
 
 #include "smt_export.h"
 #include "lit.h"
+#include "verif_hooks.h"
 #ifdef PARALLELIZE
 #include "thread_pool.h"
 #endif
@@ -95,6 +96,11 @@ namespace smt
     inline size_t decision_level() const noexcept { return trail_lim.size(); }              // returns the current decision level..
     inline bool root_level() const noexcept { return trail_lim.empty(); }                   // checks whether the current decision level is root level..
     SMT_EXPORT const std::vector<lit> &get_decisions() const noexcept { return decisions; } // returns the decisions taken so far in chronological order..
+#ifdef ORATIO_VERIF
+    SMT_EXPORT std::vector<std::vector<lit>> verif_clauses() const; // the literals of every clause currently in the database..
+    inline size_t verif_level(const var &x) const noexcept { return level.at(x); }
+    inline size_t verif_n_vars() const noexcept { return assigns.size(); }
+#endif
 
   private:
     void analyze(constr &cnfl, std::vector<lit> &out_learnt, size_t &out_btlevel) noexcept;
